@@ -30,7 +30,7 @@
 (* some file of the project declares it, the type of a call is a declared type of the      *)
 (* callee, a file's own symbol table holds exactly the names its content declares.         *)
 (* An answer maps each relevant name to the SET of acceptable observations; where the      *)
-(* property is silent the set is AnyObs: which declaration wins among several files           *)
+(* property is silent the set is AnyObs: which declaration wins among several files        *)
 (* declaring the same name with different types, the type reported for a call of an        *)
 (* undeclared function, anything next to an opaque content.                                *)
 EXTENDS Integers, Sequences, FiniteSets, TLC
@@ -148,7 +148,7 @@ InitWith(c) == cfg = c /\ d = InitDb /\ obs = NoObs /\ seen = NoSeen
 SetText(f, t) == /\ f \in Files /\ t \in Texts
                  /\ d' = SetOf(d, f, t) /\ obs' = [op |-> "Set", path |-> SetPath(d, f, t)]
                  /\ seen' = NoSeen /\ UNCHANGED cfg
-Remove(f) == /\ f \in Files
+RemoveText(f) == /\ f \in Files
              /\ d' = RemoveOf(d, f) /\ obs' = [op |-> "Remove", path |-> IF d.sources[f] = NoText THEN "absent" ELSE "present"]
              /\ seen' = NoSeen /\ UNCHANGED cfg
 Query(kind, f) ==
